@@ -28,8 +28,35 @@ case_size = common.case_size
 shrink_steps = common.rule_case_steps
 
 
+def gen_eps_elimination_tie(rng):
+    """a later-round tie for last place between candidates whose INITIAL first-place tallies differ by 1e-20:
+    only the one with the lower initial tally may be eliminated, and no random choice is involved"""
+    from fractions import Fraction
+
+    names = rng.sample(G.NAME_FAMILIES[rng.choice(["plain", "disorder", "nested"])][:6], 4)
+    W, X, Y, Z = names
+    a = Fraction(rng.randint(1, 4))
+    e = Fraction(1, 10**20)
+    bs = [([[W]], 3 * a / 2), ([[X]] + ([[W]] if rng.random() < 0.5 else []), a), ([[Y]], a + e), ([[Z], [X]], e)]
+    rng.shuffle(bs)
+    cands = list(names)
+    rng.shuffle(cands)
+    rule = rng.choice(["STV", "IRV", "SequentialRCV"])
+    kw = {"quota": "droop", "tiebreak": rng.choice([None, "random", "borda", "first_place"])}
+    if rule != "IRV":
+        kw.update(m=1, simultaneous=rng.random() < 0.5)
+    if rule == "STV":
+        kw["transfer"] = "fractional"
+    return {"rule": rule, "kw": kw, "profile": {"candidates": cands, "ballots": [{"r": r, "w": canon.fs(w)} for r, w in bs]},
+            "shape": {"n": 4, "nb": 4, "law": "eps-elimination-tie", "wfam": "rat", "names": "mixed", "ghosts": 0, "zero_w": False, "eps": True}}
+
+
 def generate(run_seed, tier):
     rng = stream(run_seed, "gen")
+    if rng.random() < 0.02:
+        case = gen_eps_elimination_tie(rng)
+        case["policies"] = common.gen_policies(rng, run_seed)
+        return case
     u = rng.random()
     case = G.gen_rule_case(rng, rules=("STV", "STV", "STV", "IRV", "SequentialRCV", "Alaska"), max_c=6 if u < 0.9 else 9 if u < 0.985 else 14, tie_bias=0.25)
     case["policies"] = common.gen_policies(rng, run_seed)
